@@ -131,60 +131,85 @@ def upper_bound(test, var, repo, mod):
     return None
 
 
+def _compact_expect(v):
+    """(prefix or None, struct code) the protocol prescribes for the count v"""
+    for ub, prefix, code in spec.COMPACT_SIZE:
+        if ub is None or v <= ub:
+            return prefix, code
+
+
 def rule_compactsize(ctx, repo, eng):
+    """Decided on boundary representatives: the encoding is a piecewise-constant function of the count whose breakpoints
+    are the integers the code compares with, so its value at c-1, c, c+1 for every such integer (and for the protocol's
+    own boundaries) decides it on all counts.  Each representative is traced through the writer (all guards fold), the
+    statements on that path are read off by the LAYOUT engine, and the result is compared with the protocol table."""
+    from ..table import Tracer, comparison_constants, representatives
+    from ..layout import _WState, _RState, normalise
     r = ctx.rule('C01.T1', 'CompactSize thresholds, prefixes and formats on both sides equal the protocol table',
                  engine='TABLE', floor=8)
     ci = repo.get_class('bitcoin.core.serialize.VarIntSerializer')
     w = repo.lookup_method(ci, 'stream_serialize')
     rd = repo.lookup_method(ci, 'stream_deserialize')
     var = w.params[1]
-    chain = threshold_chain(w.node, var)
-    # writer: first arm rejects negatives
-    idx = 0
-    if chain and chain[0][0] is not None and norm(chain[0][0]) in ('%s < 0' % var,) and flow.always_raises(chain[0][1]):
-        r.ok('writer:negative-rejected', common.site_of(w, chain[0][0]), 'negative counts are rejected')
-        idx = 1
-    else:
-        r.violated('writer:negative-rejected', w.site, 'the CompactSize writer does not reject negative values first')
-    arms = chain[idx:]
-    if len(arms) != 4:
-        r.undecided('writer:arms', w.site, 'expected four CompactSize arms, found %d' % len(arms))
-    else:
-        for k, ((test, body), (ub, prefix, code)) in enumerate(zip(arms, spec.COMPACT_SIZE)):
-            key = 'writer:arm%d' % k
-            site = common.site_of(w, test if test is not None else body[0])
-            b = upper_bound(test, var, repo, w.module) if test is not None else None
-            if ub is None:
-                bound_ok = test is None
+    proto = [0, 0xfc, 0xfd, 0xffff, 0x10000, 0xffffffff, 0x100000000, 0xffffffffffffffff]
+    pts = representatives(comparison_constants(repo, w), extra=proto, lo=-2, hi=0xffffffffffffffff)
+    groups = {}  # arm key -> [ok?, site, details]
+    for v in pts:
+        tr = Tracer(repo, w.module, cls=ci)
+        try:
+            paths = tr.trace(w.node.body, env={var: v})
+        except OverflowError:
+            r.undecided('writer:paths', w.site, 'path explosion in the CompactSize writer')
+            break
+        if len(paths) != 1:
+            r.undecided('writer:n=%#x' % v, w.site, 'the writer path for the count %#x depends on something other than the count (%d paths)' % (v, len(paths)))
+            continue
+        p = paths[0]
+        if v < 0:
+            key = 'writer:negative-rejected'
+            ok = p.end == 'raise'
+            msg = 'negative counts are rejected' if ok else 'the CompactSize writer accepts the negative value %d' % v
+            site = common.site_of(w, p.endnode) if p.endnode is not None else w.site
+        else:
+            prefix, code = _compact_expect(v)
+            key = 'writer:arm%d' % [c for _, _, c in spec.COMPACT_SIZE].index(code)
+            site = common.site_of(w, p.stmts()[-1]) if p.stmts() else w.site
+            if p.end == 'raise':
+                ok, msg = False, 'the count %#x is refused' % v
             else:
-                bound_ok = b == ('le', ub)
-            # what the arm writes
-            st = eng.__class__  # noqa
-            try:
-                from ..layout import _WState, normalise
-                ws = _WState(eng, w, w.params[2], {}, ci, 0)
-                items = normalise(ws.block(body))
-            except Undecided as e:
-                r.undecided(key, site, str(e))
-                continue
-            got_prefix = None
-            got_code = None
-            for it in items:
-                if it.kind == 'const' and len(it.value) == 1:
-                    got_prefix = it.value[0]
-                elif it.kind == 'int':
-                    got_code = it.fmt
-            want_fmt = ('<' + code) if code != 'B' else 'B'
-            fmt_ok = got_code is not None and got_code[-1] == code and (code == 'B' or got_code[0] == '<')
-            if not bound_ok:
-                r.violated(key, site, 'CompactSize writer arm %d: boundary is %s, protocol boundary is %s' % (
-                    k, norm(test) if test is not None else 'else', ('<= 0x%x' % ub) if ub is not None else 'else'))
-            elif got_prefix != prefix or not fmt_ok:
-                r.violated(key, site, 'CompactSize writer arm %d emits prefix %r / format %r, protocol: prefix %r / little-endian %s' % (
-                    k, got_prefix, got_code, prefix, code))
-            else:
-                r.ok(key, site, 'n %s -> prefix %s, format %s' % (('<= 0x%x' % ub) if ub is not None else 'above', prefix, code))
-    # reader: first byte, then arms `< 0xfd`, `== 0xfd`, `== 0xfe`, else
+                try:
+                    ws = _WState(eng, w, w.params[2], {}, ci, 0)
+                    ws.venv = {k: x for k, x in p.env.items() if not k.startswith('?')}
+                    ws.venv.pop(var, None)
+                    items = normalise(ws.block([s_ for s_ in p.stmts() if not isinstance(s_, (ast.Return, ast.Assign))]))
+                except Undecided as e:
+                    r.undecided(key + ':n=%#x' % v, site, str(e))
+                    continue
+                got = []
+                for it in items:
+                    if it.kind == 'const':
+                        got.extend(('const', b) for b in it.value)
+                    elif it.kind == 'int':
+                        got.append(('int', it.fmt, it.get('field')))
+                    else:
+                        got.append((it.kind,))
+                want = ([('const', prefix)] if prefix is not None else []) + [('int', code, var)]
+                norm_got = [(g[0], g[1][-1] if g[0] == 'int' else g[1]) + ((g[2],) if g[0] == 'int' else ()) for g in got if len(g) > 1]
+                endian_ok = all(g[1][0] == '<' or g[1] in ('B', '<B', '>B', '=B', '!B') for g in got if g[0] == 'int')
+                ok = norm_got == [(x[0], x[1]) + ((x[2],) if x[0] == 'int' else ()) for x in want] and endian_ok and len(norm_got) == len(got)
+                msg = ('n = %#x -> %s' % (v, want)) if ok else 'the count %#x is written as %s, protocol: prefix %s then little-endian %s' % (
+                    v, got, ('0x%02x' % prefix) if prefix is not None else 'none', code)
+        g = groups.setdefault(key, [True, site, []])
+        if not ok:
+            g[0] = False
+            g[1] = site
+            g[2].append(msg)
+        elif g[0]:
+            g[2] = [msg]
+    for key in sorted(groups):
+        ok, site, msgs = groups[key]
+        r.check(ok, key, site, msgs[0] if msgs else '', '; '.join(msgs[:3]))
+    # reader: first byte, then what each discriminator value makes it read
     first = None
     for s in rd.node.body:
         if isinstance(s, ast.Assign) and isinstance(s.targets[0], ast.Name):
@@ -194,37 +219,57 @@ def rule_compactsize(ctx, repo, eng):
         r.undecided('reader:first-byte', rd.site, 'no first-byte read found')
         return
     rv = first.targets[0].id
-    ok_first = norm(first.value) in ('ser_read(f, 1)[0]', "struct.unpack(b'B', ser_read(f, 1))[0]", "struct.unpack('B', ser_read(f, 1))[0]", "struct.unpack(b'<B', ser_read(f, 1))[0]")
-    r.check(ok_first, 'reader:first-byte', common.site_of(rd, first), 'discriminator is one byte', 'discriminator read is %s' % norm(first.value))
-    chain = threshold_chain(rd.node, rv)
-    if len(chain) != 4:
-        r.undecided('reader:arms', rd.site, 'expected four CompactSize reader arms, found %d' % len(chain))
-        return
-    for k, ((test, body), (ub, prefix, code)) in enumerate(zip(chain, spec.COMPACT_SIZE)):
-        key = 'reader:arm%d' % k
-        site = common.site_of(rd, test if test is not None else body[0])
-        b = upper_bound(test, rv, repo, rd.module) if test is not None else None
-        if k == 0:
-            good = b == ('le', 0xfc) and len(body) == 1 and isinstance(body[0], ast.Return) and norm(body[0].value) == rv
-            r.check(good, key, site, 'values below 0xfd are returned directly', 'first reader arm is `%s`' % (norm(test) if test is not None else 'else'))
+    ok_first = norm(first.value) in ('ser_read(f, 1)[0]', "struct.unpack(b'B', ser_read(f, 1))[0]", "struct.unpack('B', ser_read(f, 1))[0]", "struct.unpack(b'<B', ser_read(f, 1))[0]", "struct.unpack('<B', ser_read(f, 1))[0]", "ord(ser_read(f, 1))", "int.from_bytes(ser_read(f, 1), 'little')")
+    if ok_first:
+        r.ok('reader:first-byte', common.site_of(rd, first), 'discriminator is one byte')
+    else:
+        try:
+            rs = _RState(eng, rd, rd.params[1], {}, ci, 0)
+            its = normalise(rs.block([first]))
+            good = len(its) == 1 and its[0].kind == 'int' and its[0].fmt[-1] == 'B'
+            r.check(good, 'reader:first-byte', common.site_of(rd, first), 'discriminator is one byte', 'discriminator read is %s' % norm(first.value))
+        except Undecided as e:
+            r.undecided('reader:first-byte', common.site_of(rd, first), 'discriminator read `%s`: %s' % (norm(first.value), e))
+    rest = rd.node.body[rd.node.body.index(first) + 1:]
+    groups = {}
+    for v in sorted(set(representatives(comparison_constants(repo, rd), extra=[0, 0xfc, 0xfd, 0xfe, 0xff], lo=0, hi=0xff))):
+        tr = Tracer(repo, rd.module, cls=ci)
+        paths = tr.trace(rest, env={rv: v})
+        key = 'reader:arm%d' % (0 if v < 0xfd else v - 0xfc)
+        if len(paths) != 1 or paths[0].end != 'return':
+            g = groups.setdefault(key, [True, rd.site, []])
+            g[0] = False
+            g[2].append('discriminator %#x does not lead to exactly one return (%d paths)' % (v, len(paths)))
             continue
-        want = ('eq', prefix) if k < 3 else None
-        bound_ok = (b == want) if k < 3 else (test is None)
-        ret = body[0] if body and isinstance(body[0], ast.Return) else None
-        fmt = n = None
-        if ret is not None and isinstance(ret.value, ast.Subscript) and isinstance(ret.value.value, ast.Call):
-            sc = eng.struct_call(ret.value.value, rd, 'unpack')
-            if sc:
-                fmt = sc[1]
-                nn = eng.is_ser_read(ret.value.value.args[1], rd, rd.params[1])
-                n = repo.fold(nn, rd.module) if nn is not None else None
-        fmt_ok = fmt is not None and fmt[-1] == code and fmt[0] == '<' and n == _struct.calcsize('<' + code)
-        if not bound_ok:
-            r.violated(key, site, 'CompactSize reader arm %d tests `%s`, protocol prefix is 0x%02x' % (k, norm(test) if test is not None else 'else', prefix))
-        elif not fmt_ok:
-            r.violated(key, site, 'CompactSize reader arm %d reads format %r over %r bytes, protocol: little-endian %s' % (k, fmt, n, code))
+        p = paths[0]
+        ret = p.endnode
+        site = common.site_of(rd, ret)
+        if v < 0xfd:
+            ok = ret.value is not None and norm(ret.value) == rv and len(p.stmts()) == 1
+            msg = 'values below 0xfd are returned directly' if ok else 'discriminator %#x returns `%s`' % (v, norm(ret.value))
         else:
-            r.ok(key, site, 'prefix 0x%02x -> %s' % (prefix, code))
+            code = spec.COMPACT_SIZE[v - 0xfc][2]
+            try:
+                rs = _RState(eng, rd, rd.params[1], {}, ci, 0)
+                rs.venv = {k: x for k, x in p.env.items() if not k.startswith('?') and k != rv}
+                its = [it for it in normalise(rs.block(p.stmts())) if it.kind not in ('return',)]
+            except Undecided as e:
+                r.undecided(key, site, str(e))
+                continue
+            ok = (len(its) == 1 and its[0].kind == 'int' and its[0].fmt[-1] == code and its[0].fmt[0] == '<'
+                  and its[0].get('read_n') == _struct.calcsize('<' + code))
+            msg = ('prefix 0x%02x -> %s' % (v, code)) if ok else 'CompactSize reader: after the prefix 0x%02x it reads %s, protocol: little-endian %s' % (
+                v, [(it.kind, it.get('fmt'), it.get('read_n')) for it in its], code)
+        g = groups.setdefault(key, [True, site, []])
+        if not ok:
+            g[0] = False
+            g[1] = site
+            g[2].append(msg)
+        elif g[0]:
+            g[2] = [msg]
+    for key in sorted(groups):
+        ok, site, msgs = groups[key]
+        r.check(ok, key, site, msgs[0] if msgs else '', '; '.join(msgs[:3]))
 
 
 # ----------------------------------------------------------------------------------------------- L3
